@@ -61,6 +61,8 @@ PROGRAMS = [
     # 47-48: primitives in tight layouts (literals touching keywords / dots), names containing 'as', relative imports
     "x = not'b'\ny = 'a'.b\nz = 1 if'a'else 2\nw = ['c',-1]",
     "import asab as a, fromm\nfrom .a.b import c as d\nfrom .. import e\nfrom ...f import (g as h)",
+    # 49: lambdas whose defaults contain colons (the ':' that ends the parameter list has to be found)
+    "f = lambda event, opts={'retry': 1}: f()\ng = lambda a=b[1:2], *c: a\nh = lambda k=(lambda: 0): k",
 ]
 
 for _p in PROGRAMS:
